@@ -115,8 +115,38 @@ def run_provider_case(case, acc=None):
     futures = []
     last_id = 0
     rejected_by_fault = 0
+    unregistered = {}
     for (ci, kind, delayed, mode) in case:
+        if kind.startswith('Unregister:'):
+            # the application takes the operation away (and may register it again later): requests for its handle are
+            # requests for an unknown operation from now on
+            k = kind.split(':')[1]
+            for reg in p._sco_operations_registries.values():
+                op = reg.get_operation_by_handle(OPS[k])
+                if op is not None:
+                    reg.unregister_operation_by_handle(OPS[k])
+                    unregistered[k] = (reg, op)
+            continue
+        if kind.startswith('Register:'):
+            k = kind.split(':')[1]
+            if k in unregistered:
+                reg, op = unregistered.pop(k)
+                reg.register_operation(op)
+            continue
         handle = OPS.get(kind, 'no.such.operation') if kind != 'Unknown' else 'no.such.operation'
+        if kind in unregistered:
+            # same request as before, but the operation is gone: must be handled like any unknown operation
+            before_unknown = canon.snapshot(p.mdib)
+            try:
+                fut = _send(consumers[ci], p, kind, handle)
+            except Exception as ex:  # noqa: BLE001
+                problems.append(f'{kind}/unregistered: request raised {type(ex).__name__} {str(ex)[:60]}')
+                return 'ok', problems
+            world.drain_operations(p)
+            if canon.diff(before_unknown, canon.snapshot(p.mdib)):
+                problems.append(f'{kind}/unregistered: unknown operation touched the MDIB (the handler of the un-registered operation ran)')
+            futures.append((fut, 'Unknown', delayed, mode))
+            continue
         if kind != 'Unknown' and _install_handler(p, handle, mode, delayed) is None:
             return 'disabled', []
         try:
@@ -476,6 +506,14 @@ def provider_cases(quick):
                 if k1 == k2 and m1 != m2:
                     continue  # one operation object has one handler
                 cases.append([(0, k1, d1, m1), (1, k2, d2, m2)])
+    # invoke / un-register / invoke again: lookups must follow the registry (an operation object cannot be registered twice)
+    for k in (kinds[:2] if quick else kinds):
+        for delayed in (False, True):
+            cases.append([(0, k, delayed, 'ok'), (0, f'Unregister:{k}', delayed, 'ok'), (0, k, delayed, 'ok')])
+            cases.append([(0, f'Unregister:{k}', delayed, 'ok'), (0, k, delayed, 'ok')])
+            other = kinds[(kinds.index(k) + 1) % len(kinds)]
+            cases.append([(0, k, delayed, 'ok'), (1, other, delayed, 'ok'), (0, f'Unregister:{k}', delayed, 'ok'), (1, k, delayed, 'ok'),
+                          (0, other, delayed, 'ok')])
     # bursts that fill the operation queue (capacity 10) before the worker gets to run
     for n in ((10, 12) if quick else (9, 10, 11, 12, 13)):
         cases.append([(i % 2, 'SetString', True, 'ok') for i in range(n)])
